@@ -32,6 +32,8 @@ def run(repo, rep):
     _truth_rule(repo, rep, 'C19', 'C19.Z4')
     from ..api_pitfalls import attribute_rule as _attribute_rule
     _attribute_rule(repo, rep, 'C19', 'C19.Z5')
+    from ..api_pitfalls import pairing_rule as _pairing_rule
+    _pairing_rule(repo, rep, 'C19', 'C19.Z6')
     from ..pitfalls import zero_rule as _zero_rule
     _zero_rule(repo, rep, 'C19', 'C19.Z3')
     rep.trust('C18 for the pending classification; CPython generator semantics')
